@@ -126,6 +126,7 @@ def invariant_loop(eng, stmt, label, spec, view, s, iter_val=None, guard=None):
         b = {idx: sv_int(i_term)}
         if is_for:
             b["_n"] = sv_int(view.n)
+            b["_seq"] = view
         return b
 
     def spec_state(state):
